@@ -169,13 +169,16 @@ CLAIMED["C10"] = dict(
           "all four comment lists are a prefix of the result's), C10_new_comments_attributed (every entry of the result is an "
           "existing entry or one written by this run: its author, not resolved, one paragraph, a numeral id above every "
           "numeric id that was there), C10_comment_ids_stay_unique (+ _actions: distinct comment ids stay distinct after "
-          "any batch / review round), C10_comment_parts_stay_linked_actions, C10_anchor_encloses, C10_reply_unknown_skipped. " + ENGINE_TIE +
+          "any batch / review round), C10_comment_parts_stay_linked_actions, C10_anchor_encloses, C10_reply_unknown_skipped; "
+          "C10_comment_shown_with_insertion / _deletion / _replacement (engine shape read by the reader model: the comment id and "
+          "the change id are open in one snapshot of the paragraph's metadata, hence rendered in one block - any surrounding "
+          "paragraph content). " + ENGINE_TIE +
           "Oracle: every applied commented edit (replacement, insertion, deletion, multi-line, heading) has exactly one "
           "new comment anchored on its own marks and shown with them in the raw view; replies threaded and shown with "
           "their thread; unknown parents skipped."),
     note=NOTE_COMMON + "comment/edit association in the oracle is by (unique) comment text.",
-    technique="Lean 4 proof on the comment store model + differential correspondence + anchoring oracle",
-    design="§5 C10")
+    technique="Lean 4 proof on the comment store model and on the reader model applied to the engine's output shape + differential correspondence + anchoring oracle",
+    design="§5 C10, §13.2")
 CLAIMED["C16"] = dict(
     text=("Lean theorems: C16_inherits (every inserted run carries the other run properties of the style source), "
           "C16_literal (text without a well-formed span is inserted literally as one run), C16_heading_style. " +
